@@ -314,6 +314,16 @@ ROUND5 = {
 for _k, _v in ROUND5.items():
     CHECKS[_k]["text"] = CHECKS[_k]["text"].rstrip() + " " + _v
 
+# rules added after the sixth round of seeded changes
+ROUND6 = {
+    "C03": "Also (R03.11): the hybrid limit of the v+ bracket is (re-)evaluated with the high-T sound speed at the T+ of a matching, not only at Tn, so an exact "
+           "matching just below the Jouguet velocity is not replaced by the template approximation.",
+    "C12": "Also (R12.12): in spectral mode every non-derivative slot of the Liouville and collision operators carries the coefficient-to-grid matrix of the solver's "
+           "basis; an identity stands there only in the finite-difference arm, where the unknowns are grid values.",
+}
+for _k, _v in ROUND6.items():
+    CHECKS[_k]["text"] = CHECKS[_k]["text"].rstrip() + " " + _v
+
 NOT_APPLICABLE = {}
 
 ENGINES = [
